@@ -17,7 +17,7 @@ pub fn run(f: &[&str]) -> Option<String> {
     match (f[0], f.len()) {
         ("stm", 2) => Some(asset(f[1], |b| cls(physis::stm::StainingTemplate::from_existing(b)))),
         ("avfx", 2) => Some(asset(f[1], |b| cls(physis::avfx::Avfx::from_existing(b)))),
-        ("sklb", 2) => Some(asset(f[1], |b| okc(physis::skeleton::Skeleton::from_existing(b)))),
+        ("sklb", 2) => Some(asset(f[1], |b| cls(physis::skeleton::Skeleton::from_existing(b)))),
         ("lgb", 2) => Some(asset(f[1], |b| cls(physis::layer::LayerGroup::from_existing(b)))),
         ("dic", 2) => Some(asset(f[1], |b| okc(physis::dic::Dictionary::from_existing(b)))),
         _ => None,
